@@ -10,6 +10,7 @@ path designates the same target, chained/nested links, the equality based select
 what unmerge removes.
 """
 import ast
+import re
 
 from .. import analysis
 from ..astutil import calls_in, call_name, where
@@ -152,6 +153,44 @@ def run(prog, rep):
     # the reference is resolved through the path lookup: names are matched exactly (shared with C14)
     from .c14 import exact_name_match
     exact_name_match(prog, rep, "LOOKUP-1")
+
+    # ---------------------------------------------------------------- PATH-3
+    rep.rule("PATH-3", "section.py / base.py / doc.py: no decision relates two tree positions by comparing their path texts character-wise "
+                       "(<path>.startswith/endswith/find/in <path> with both operands results of get_path()/get_relative_path() and no "
+                       "separator appended): '/a/b1' starts with '/a/b' without being below it, so such a test refuses or re-routes a "
+                       "valid link whose target name is a prefix of a name on the linking path")
+    def _is_path_text(t):
+        return bool(re.search(r"\.get_path\(\)|\.get_relative_path\(", t))
+    n_str = 0
+    for f3 in list(prog.functions.values()):
+        if f3.module.name not in ("odml.section", "odml.base", "odml.doc"):
+            continue
+        x3 = None
+        for n in walk_no_nested(f3.node):
+            pair = None
+            if isinstance(n, ast.Call) and isinstance(n.func, ast.Attribute) and n.func.attr in ("startswith", "endswith", "find", "index", "count", "rfind") \
+                    and len(n.args) >= 1:
+                pair = (n.func.value, n.args[0])
+            elif isinstance(n, ast.Compare) and len(n.ops) == 1 and isinstance(n.ops[0], (ast.In, ast.NotIn)):
+                pair = (n.comparators[0], n.left)
+            if pair is None:
+                continue
+            n_str += 1
+            if x3 is None:
+                x3 = Expander(f3, only_locations=False)
+            try:
+                ta, tb = x3.text(pair[0]), x3.text(pair[1])
+            except Exception:
+                continue
+            bad = _is_path_text(ta) and _is_path_text(tb) and "'/'" not in tb
+            rep.check(not bad, "PATH-3", "%s: %s" % (f3.qualname, unparse(n)[:60]), "not a character-wise comparison of two paths",
+                      "%s decides on `%s` - a character-wise comparison of two path texts (%s against %s): a name that is a prefix of "
+                      "another name is taken for its ancestor" % (f3.qualname, unparse(n)[:80], ta[:40], tb[:40]), where(f3, n),
+                      witness="/exp/session10/rec with link /exp/session1: finalize() refuses a valid link")
+    rep.note("PATH-3: %d substring tests in section/base/doc examined" % n_str)
+    _pos = ast.parse("def f(self, o):\n    a = self.get_path()\n    if a.startswith(o.get_path()):\n        raise ValueError()\n").body[0]
+    _c = [n for n in ast.walk(_pos) if isinstance(n, ast.Call) and getattr(n.func, "attr", "") == "startswith"]
+    rep.check(len(_c) == 1, "PATH-3", "built-in positive example is recognised", "1 call", "the rule does not recognise its own example", "c12.py")
 
     # --------------------------------------------------------------- CLEAN-1
     rep.rule("CLEAN-1", "BaseSection.clean: every normal path calls the inherited clean (super().clean()); Sectionable.clean calls clean() on "
